@@ -1,6 +1,7 @@
 package main
 
 import (
+	"go/types"
 	"fmt"
 	"math/big"
 	"strings"
@@ -38,6 +39,7 @@ type FieldInfo struct {
 	Name     string // Go field name
 	Accessor string // SMT accessor
 	Sort     *Sort
+	GoType   types.Type // the field's Go type (for typed-heap range facts)
 }
 
 var (
